@@ -5,4 +5,5 @@ open Genq
 #print axioms C05_reject
 #print axioms C05_unknown_file_type_rejected
 #print axioms C05_selected_marker
+#print axioms C05_selected_iff
 #print axioms C05_parse_tie
